@@ -388,6 +388,29 @@ pub fn run(seed: u64, n: u64) {
         }
         println!("{}", out);
 
+        // ------------------------------------------------------------ two credentials: the claim LISTS have to match pairwise, in order
+        if ncred == 2 && verified {
+            let netn = |n: Network| if n == Network::Testnet { 0 } else { 1 };
+            let ips: Vec<IpIdentity> = creds.iter().map(|c| match c { Cred::Account { issuer, .. } | Cred::Identity { issuer, .. } => *issuer }).collect();
+            let cls: Vec<RequestedIdentitySubjectClaims> = creds.iter().zip(ips.iter()).map(|(c, ip)| RequestedIdentitySubjectClaims {
+                statements: c.ss().iter().map(requested).collect(), issuers: vec![IdentityProviderDid::new(ip.0, network)],
+                source: vec![if matches!(c, Cred::Account { .. }) { IdentityCredentialType::AccountCredential } else { IdentityCredentialType::IdentityCredential }] }).collect();
+            let validity = CredentialValidityType::ValidityPeriod(CredentialValidity { valid_to: YearMonth::new(2030, 5).unwrap(), created_at: YearMonth::new(2020, 5).unwrap() });
+            let mat: Vec<VerificationMaterialWithValidity> = creds.iter().map(|c| VerificationMaterialWithValidity { verification_material: c.material().clone(), validity: validity.clone() }).collect();
+            let vctx = VerificationContext { network, validity_time: now };
+            let orders: Vec<(&str, Vec<usize>)> = vec![("claims_in_order", vec![0, 1]), ("claims_swapped", vec![1, 0]), ("claims_first_only", vec![0]), ("claims_first_twice", vec![0, 0]), ("claims_one_extra", vec![0, 1, 0])];
+            for (name, ord) in orders {
+                let sel: Vec<RequestedIdentitySubjectClaims> = ord.iter().map(|k| cls[*k].clone()).collect();
+                let d = VerificationRequestDataBuilder::new(unfilled.clone()).subject_claims(sel.iter().cloned().map(RequestedSubjectClaims::Identity)).build();
+                let vreq = VerificationRequest { context: unfilled.clone(), subject_claims: d.subject_claims.clone(), anchor_transaction_hash: hashes::TransactionHash::new([9u8; 32]) };
+                let vra = VerificationRequestAnchorAndBlockHash { verification_request_anchor: d.to_anchor(None), block_hash: bh };
+                let res = guarded(|| verify_presentation_with_request_anchor(&global, &vctx, &vreq, &pres, &vra, &mat));
+                let rs = match res { Ok(PresentationVerificationResult::Verified) => "Verified".to_string(), Ok(PresentationVerificationResult::Failed(f)) => format!("Failed({:?})", f), Err(_) => "PANIC".into() };
+                println!("{}", json!({"k":"match2","name":name,"i":i,"result":rs,
+                    "rqs": ord.iter().map(|k| json!({"issuers":[[ips[*k].0, netn(network)]],"source":[creds[*k].kind()],"ss":creds[*k].ss().iter().map(s1_json).collect::<Vec<_>>()})).collect::<Vec<_>>(),
+                    "pcs": creds.iter().zip(ips.iter()).map(|(c, ip)| json!({"kind":c.kind(),"issuer":ip.0,"net":netn(network),"ss":c.ss().iter().map(s1_json).collect::<Vec<_>>()})).collect::<Vec<_>>()}));
+            }
+        }
         // ------------------------------------------------------------ request anchor verification
         if ncred == 1 {
             let c = &creds[0];
@@ -497,10 +520,29 @@ pub fn run(seed: u64, n: u64) {
                         "pc":{"kind":c.kind(),"issuer":ip.0,"net":netn(network),"ss":c.ss().iter().map(s1_json).collect::<Vec<_>>()}}));
                 }
             }
+            if verified && !c.ss().is_empty() {
+                // statement lists: a request with one statement less / one more
+                let netn = |n: Network| if n == Network::Testnet { 0 } else { 1 };
+                for (name, drop) in [("statements_request_shorter", true), ("statements_request_longer", false)] {
+                    let mut cl = claims.clone();
+                    if drop { cl.statements.pop(); } else { cl.statements.push(RequestedStatement::RevealAttribute(RevealAttributeStatement { attribute_tag: AttributeTag(c.al()[0].0) })); }
+                    let d9 = VerificationRequestDataBuilder::new(unfilled.clone()).subject_claim(cl.clone()).build();
+                    let vreq9 = VerificationRequest { context: unfilled.clone(), subject_claims: d9.subject_claims.clone(), anchor_transaction_hash: vreq.anchor_transaction_hash };
+                    let vra9 = VerificationRequestAnchorAndBlockHash { verification_request_anchor: d9.to_anchor(None), block_hash: bh };
+                    let res = guarded(|| verify_presentation_with_request_anchor(&global, &vctx, &vreq9, &pres, &vra9, &mat));
+                    let rs = match res { Ok(PresentationVerificationResult::Verified) => "Verified".to_string(), Ok(PresentationVerificationResult::Failed(f)) => format!("Failed({:?})", f), Err(_) => "PANIC".into() };
+                    let mut rqss: Vec<J> = c.ss().iter().map(s1_json).collect();
+                    if drop { rqss.pop(); } else { rqss.push(json!({"s":"reveal","tag":c.al()[0].0})); }
+                    println!("{}", json!({"k":"match","name":name,"i":i,"kind":c.kind(),"result":rs,
+                        "rq":{"issuers":cl.issuers.iter().map(|d| json!([d.identity_provider.0, netn(d.network)])).collect::<Vec<_>>(),
+                              "source":["identity","account"],"ss":rqss},
+                        "pc":{"kind":c.kind(),"issuer":ip.0,"net":netn(network),"ss":c.ss().iter().map(s1_json).collect::<Vec<_>>()}}));
+                }
+            }
             // ---- consistent lies: the prover builds the presentation FROM THE START with claimed metadata that differs
             // from the verification material / public data the verifier resolves; every one must be rejected
             if verified {
-                let lie_row = |name: &str, proved: &str, res: J| println!("{}", json!({"k":"lie","flow":"v1","name":name,"i":i,"kind":c.kind(),"prove":proved,"verify":res}));
+                let lie_row = |name: &str, proved: &str, res: J| println!("{}", json!({"k":"lie","flow":"v1","name":name,"i":i,"seed":seed,"kind":c.kind(),"cred":cj[0],"prove":proved,"verify":res}));
                 let try_lie = |name: &str, req: RequestV1<ArCurve, W>, inp: CredentialProofPrivateInputs<'_, IpPairing, ArCurve, W>, mats: &[Mat]| {
                     let p = guarded(|| req.prove_with_rng(&global, vec![inp].into_iter(), &mut StdRng::seed_from_u64(seed + i + 77), now));
                     match p {
